@@ -47,7 +47,8 @@ def impl(case):
 def _tests(args, case):
     from vlib import zlist
     ns = [o[1] for o in case['ops']]
-    return [f"order_test {args} {zlist(ns)}", f"timeline_test {args} {zlist(ns)}"]
+    return [f"order_test {args} {zlist(ns)}", f"timeline_test {args} {zlist(ns)}",
+            f"after_empty_test {args} {zlist(ns[:-1])} {ns[-1]}"]
 
 
 def expr(case, res):
